@@ -462,8 +462,12 @@ class Connection(object):
             self.connected = False
 
             if not immediate and self.socket is not None:
-                # Flush any packets remaining in the queue.
-                while self._pop_packet():
+                # Flush any packets remaining in the queue. If the connection
+                # is already broken, there is nowhere to flush them to.
+                try:
+                    while self._pop_packet():
+                        pass
+                except IOError:
                     pass
 
             if self.new_networking_thread is not None:
